@@ -26,6 +26,7 @@
 
 #include <stdlib.h>
 #include <stdint.h>
+#include <limits.h>
 #include <stdbool.h>
 #include <string.h>
 #ifdef FREEBSD
@@ -131,6 +132,14 @@ bool index_read(zckCtx *zck, char *data, size_t size, size_t max_length) {
                             count);
             return false;
         }
+        /* Chunk offsets are the running sum of the stored sizes, and offsets,
+         * sizes and the length of the file are reported as ssize_t: the sum
+         * must neither wrap nor become unrepresentable */
+        if(chunk_length > (size_t)SSIZE_MAX - zck->header_size - idx_loc) {
+            set_fatal_error(zck, "Chunk %i ends beyond the largest possible "
+                            "file size", count);
+            return false;
+        }
         new->start = idx_loc;
         new->comp_length = chunk_length;
 
@@ -139,6 +148,11 @@ bool index_read(zckCtx *zck, char *data, size_t size, size_t max_length) {
         if(!compint_to_size(zck, &chunk_length, data+length, &length,
                             max_length)) {
             set_fatal_error(zck, "Unable to read chunk %i uncompressed size",
+                            count);
+            return false;
+        }
+        if(chunk_length > (size_t)SSIZE_MAX) {
+            set_fatal_error(zck, "Chunk %i uncompressed size is too large",
                             count);
             return false;
         }
